@@ -7,7 +7,7 @@ CONSTANTS
   MaxStack = 99
   BindVals = {}
   MaxBindings = 99
-  Enabled = {"Bind", "EnterScope", "ExitScope", "Call", "Clear", "Finalize", "Unlock", "DefineConstant", "Interactive"}
+  Enabled = {"Bind", "EnterScope", "ExitScope", "Call", "Clear", "Finalize", "Unlock", "DefineConstant", "Interactive", "Import", "SingletonDirect"}
   NameOrder <- TraceNames
   HookUniverse = {}
   BindApis = {"tuple"}
